@@ -28,22 +28,34 @@ def random_sig(rng):
     return der_sig(r, s, first=first, trailing=trailing)
 
 
+def bval(rng, n):
+    """n bytes, boundary shapes first: a value that is re-derived (through an integer, a C string, text) instead
+    of passed through loses leading / trailing zeros, stops at a NUL, or changes case or sign."""
+    k = rng.random()
+    if k < 0.55 or n < 2:
+        return rb(rng, n)
+    return rng.choice([bytes(n), b"\xff" * n, b"\x00" + rb(rng, n - 1), b"\x00\x00" + rb(rng, n - 2),
+                       rb(rng, n - 1) + b"\x00", b"\x80" + rb(rng, n - 1), rb(rng, n // 2) + b"\x00" + rb(rng, n - n // 2 - 1),
+                       bytes(rng.choice(b"0123456789abcdefABCDEF") for _ in range(n)), b"\x0a" + rb(rng, n - 1),
+                       rb(rng, n - 1) + b"\x0a", b"\x20" + rb(rng, n - 2) + b"\x20"])
+
+
 def random_device(rng):
     d = SimDevice(mode=MODE_SIGNER, seed=rng.random())
     for i in HASH_NAMES:
-        d.state_hashes[i] = rb(rng, 32)
+        d.state_hashes[i] = bval(rng, 32)
     d.state_diff = rng.choice([b"", b"\x01", b"\xff" * 36, rb(rng, rng.randint(1, 36)), b"\x00\x00" + rb(rng, 5),
                                bytes(36)])
     d.state_flags = bytes(rng.choice([0, 1]) for _ in range(3))
     mind = rng.choice([bytes(36), b"\xff" * 36, bytes(30) + rb(rng, 6), rb(rng, 36)])
-    d.params = rb(rng, 32) + mind + bytes([rng.choice([1, 2, 3])])
+    d.params = bval(rng, 32) + mind + bytes([rng.choice([1, 2, 3])])
     for pb in PATH_BYTES.values():
-        d.keys[pb] = b"\x04" + rb(rng, 64)
+        d.keys[pb] = b"\x04" + bval(rng, 64)
     for hb in (d.hb, d.uihb):
         hb["sig"] = random_sig(rng)
-        hb["msg"] = rb(rng, rng.randint(1, 120))
-        hb["hash"] = rb(rng, 32)
-        hb["pub"] = b"\x04" + rb(rng, 64)
+        hb["msg"] = bval(rng, rng.choice([1, 2, 31, 32, 33, 64, 80, 81, 120, rng.randint(1, 120)]))
+        hb["hash"] = bval(rng, 32)
+        hb["pub"] = b"\x04" + bval(rng, 64)
     return d
 
 
